@@ -36,11 +36,17 @@ def main():
     pid, wt = sys.argv[1], sys.argv[2]
     checks = [pid]
     tier = "quick"
+    repo = "/repo"
     for i, a in enumerate(sys.argv):
         if a == "--checks":
             checks = sys.argv[i + 1].split(",")
         if a == "--tier":
             tier = sys.argv[i + 1]
+        if a == "--repo":
+            # first evaluations may run against a scratch worktree of /repo (SWCGEOM_REPO + PYTHONPATH), so that /repo and the
+            # development copy of /verif are not disturbed; the RECORDED regression run (seedall.py) always applies to /repo itself
+            repo = sys.argv[i + 1]
+    renv = {} if repo == "/repo" else {"SWCGEOM_REPO": repo, "PYTHONPATH": repo}
     out = Path(wt) / "seed_out"
     _saved_evidence = evidence_backup()
     env = {"PYTHONPATH": wt, "PYTHONDONTWRITEBYTECODE": "1"}
@@ -72,14 +78,14 @@ def main():
         shutil.copy(diff, d / "patch.diff")
         shutil.copy(demo, d / "demo.py")
         # --- run our checks against it
-        rc, o = sh("git status --porcelain", cwd="/repo")
-        assert o.strip() == "", "/repo is not clean: " + o
-        rc, o = sh(f"git apply {d / 'patch.diff'}", cwd="/repo")
+        rc, o = sh("git status --porcelain --untracked-files=no", cwd=repo)
+        assert o.strip() == "", f"{repo} is not clean: " + o
+        rc, o = sh(f"git apply {d / 'patch.diff'}", cwd=repo)
         assert rc == 0, o
         results = {}
         try:
             for c in checks:
-                rc, o = sh(f"./check {c} --tier {tier}", cwd=V, timeout=6000)
+                rc, o = sh(f"./check {c} --tier {tier}", cwd=V, timeout=6000, env=renv)
                 viol = [l for l in o.splitlines() if l.startswith("VIOLATION")]
                 summ = [l for l in o.splitlines() if l.startswith(f"[{c}]")]
                 rp = None
@@ -94,11 +100,12 @@ def main():
                 results[c] = {"rc": rc, "violation_line": viol[0] if viol else None, "summary": summ[-1] if summ else o[-300:], "replay": rp,
                               "replay_file": (viol[0].split("replay=")[1].split()[0] if viol and "replay=" in viol[0] else None)}
         finally:
-            sh("git reset -q --hard HEAD", cwd="/repo")
+            sh("git reset -q --hard HEAD", cwd=repo)
         # keep the failing input as a corpus case of the check that found it (validated on the clean tree)
         for c, r in results.items():
             if r.get("replay_file") and isinstance(r.get("replay"), dict) and r["replay"].get("kind") == "failing-input":
-                rc2, o2 = sh(f"SWCGEOM_VERIF=1 PYTHONPATH={V} {PY} harness/corpus_add.py {c} {r['replay_file']} seed_{sid}", cwd=V, timeout=900)
+                rc2, o2 = sh(f"SWCGEOM_VERIF=1 PYTHONPATH={V}{':' + repo if repo != '/repo' else ''} {PY} harness/corpus_add.py {c} {r['replay_file']} seed_{sid}", cwd=V, timeout=900,
+                             env=({"SWCGEOM_REPO": repo} if repo != "/repo" else None))
                 r["corpus"] = o2.strip().splitlines()[-1] if o2.strip() else ""
         rec["checks"] = results
         rec["caught"] = any(r["rc"] == 1 and r["violation_line"] for r in results.values())
@@ -106,9 +113,9 @@ def main():
         (d / "meta.json").write_text(json.dumps(rec, indent=1) + "\n")
         print(sid, "confirmed; caught =", rec["caught"], "| failing input =", rec["caught_with_failing_input"], "|",
               {c: (r["violation_line"] or "exit %d" % r["rc"]) for c, r in results.items()})
-    rc, o = sh("git status --porcelain", cwd="/repo")
-    assert o.strip() == "", "/repo left dirty: " + o
-    sh("/venv/bin/python harness/regen_all.py", cwd=V)      # Gen/*.lean back to what the unchanged sources say
+    rc, o = sh("git status --porcelain --untracked-files=no", cwd=repo)
+    assert o.strip() == "", f"{repo} left dirty: " + o
+    sh("/venv/bin/python harness/regen_all.py", cwd=V, env=renv)      # Gen/*.lean back to what the unchanged sources say
     evidence_restore(_saved_evidence)
 
 
